@@ -72,4 +72,34 @@ theorem C10_history_no_offer_after_cancel (E : Evaluator) (ops : List Op) (hops 
   · right
     exact ⟨h1, C04_failed_offers_only_run_on_fail E (runOps E ops c) offers c' h1 h⟩
 
+/-- **C04**, along every rerun-free history from a terminal workflow (failed, canceled or
+    succeeded): whatever is reported, requested, queried or rendered afterwards, the conductor
+    offers nothing — except, while the workflow is `failed`, the clean-up tasks flagged run-on-fail -/
+theorem C04_history_no_offer_after_terminal (E : Evaluator) (ops : List Op) (hops : ∀ op ∈ ops, op.isRerun = false)
+    (c : Cond) (hc : c.st.status = .failed ∨ c.st.status = .canceled ∨ c.st.status = .succeeded)
+    (offers : List Offer) (c' : Cond) (h : getNextTasks E (runOps E ops c) = (.ok offers, c')) :
+    offers = [] ∨ ((runOps E ops c).st.status = .failed ∧
+      ∀ o ∈ offers, ∃ sx ∈ (runOps E ops c).st.readyStaged, sx.id = o.id ∧ sx.route = o.route ∧ sx.runOnFail = true) := by
+  have hcases : (runOps E ops c).st.status = .failed ∨ (runOps E ops c).st.status = .canceled ∨
+      (runOps E ops c).st.status = .succeeded := by
+    rcases hc with hc | hc | hc
+    · exact Or.inl (C04_failed_final E ops hops c hc)
+    · exact Or.inr (Or.inl (C04_canceled_final E ops hops c hc))
+    · rcases C04_succeeded_final E ops hops c hc with h1 | h1
+      · exact Or.inr (Or.inr h1)
+      · exact Or.inl h1
+  rcases hcases with h1 | h1 | h1
+  · right
+    exact ⟨h1, C04_failed_offers_only_run_on_fail E (runOps E ops c) offers c' h1 h⟩
+  · left
+    have := C04_no_offer_when_succeeded_or_canceled E (runOps E ops c) (Or.inr h1)
+    rw [this] at h
+    simp only [Prod.mk.injEq, Except.ok.injEq] at h
+    exact h.1.symm
+  · left
+    have := C04_no_offer_when_succeeded_or_canceled E (runOps E ops c) (Or.inl h1)
+    rw [this] at h
+    simp only [Prod.mk.injEq, Except.ok.injEq] at h
+    exact h.1.symm
+
 end Orq
